@@ -70,7 +70,7 @@ Proof. vm_compute. reflexivity. Qed.
 Lemma facts_deadlock_thm : deadlock_ok U rk = true.
 Proof. vm_compute. reflexivity. Qed.
 
-Lemma units_nonempty : 50 <= length units.
+Lemma units_nonempty : 50 <= List.length units.
 Proof. vm_compute. repeat constructor. Qed.
 
 (* ---------------------------------------------------------------- pre-fix lazyWithCore *)
